@@ -87,6 +87,9 @@ func (P) Gen(rng *sim.Rng, tier string) *harness.Case {
 		cfg.T = []float64{0.5, 1, 1, 2, 2.5, 3, 4, 5, 7, 10, 20, 33.3, 60}[rng.Intn(13)]
 		cfg.Period = uint32([]int{1, 1, 2, 3, 5, 10}[rng.Intn(6)])
 		cfg.Cold = uint32([]int{0, 2, 3, 3, 5}[rng.Intn(5)])
+		if rng.Chance(0.2) {
+			cfg.Cold = uint32([]int{10, 30, 100}[rng.Intn(3)]) // services that start very cold
+		}
 		for n := rng.Range(3, 8); len(ops) < n; {
 			switch rng.Intn(3) {
 			case 0:
